@@ -66,6 +66,13 @@ func registerSync(ip *Interp) {
 		ip.mapDelete(ip.shadowMap(a[0]), a[1])
 		return nil
 	})
+	ip.reg("(*sync.Map).Clear", func(ip *Interp, fr *frame, a []Value) Value {
+		m := ip.shadowMap(a[0])
+		for _, e := range ip.mapLive(m) {
+			ip.mapDelete(m, e.K)
+		}
+		return nil
+	})
 	ip.reg("(*sync.Map).Range", func(ip *Interp, fr *frame, a []Value) Value {
 		m := ip.shadowMap(a[0])
 		it := ip.rangeIter(nil, m).(*mapIter)
